@@ -22,39 +22,59 @@ def render (fw : Bool) (stopped : Bool) (pn : Nat) (o : Obs) : Int × Int :=
   else if pn == 6 then (o.lifetime / second * second, -1)                         -- API: whole seconds, no misconfiguration
   else (o.lifetime, if o.misconfig then 1 else 0)
 
-/-- a history step as the harness encodes it: flip, one-shot read failure, or generation -/
+/-- a history step as the harness encodes it: flip, one-shot read failure, one-shot plugin failure,
+    or generation -/
 inductive HOp where
   | setFw (i : Nat) (b : Bool)
   | failNext (i : Nat)
+  /-- the next `Apply` of the interface's (harness-defined) plugin fails, once -/
+  | pfailNext (i : Nat)
   | gen (i : Nat) (pn : Nat)
   /-- a marker without effect on the prediction: a periodic generation of the interface is held in
       flight (inside a plugin) across the following operations -/
   | held (i : Nat)
 
+/-- A scrape / an API request goes through the interfaces in configuration order; for each it reads
+    the forwarding state and then builds the RA (which applies the plugins), and gives up at the first
+    step that fails — consuming that one-shot failure only.  `some (ff, pf)` = it failed, with the
+    failure flags that remain. -/
+def viewFails (ff pf : Nat → Bool) : Option ((Nat → Bool) × (Nat → Bool)) :=
+  if ff 0 then some (setAt ff 0 false, pf)
+  else if pf 0 then some (ff, setAt pf 0 false)
+  else if ff 1 then some (setAt ff 1 false, pf)
+  else if pf 1 then some (ff, setAt pf 1 false)
+  else none
+
 /-- replay the history in the model.  `stopped`: advertisers ended by `final` or because an RA
     could not be built; `failing`: the next forwarding read of the interface fails — then no RA
     may be produced from a remembered value: the generation yields nothing (−3), and on a
-    transmitting path the advertiser ends -/
-def modelObs (cfg : Nat → Dur) : (Nat → Bool) → (Nat → Bool) → (Nat → Bool) → List HOp → List (Nat × Nat × Int × Int)
-  | _, _, _, [] => []
-  | fw, stopped, failing, .setFw i b :: rest => modelObs cfg (setAt fw i b) stopped failing rest
-  | fw, stopped, failing, .failNext i :: rest => modelObs cfg fw stopped (setAt failing i true) rest
-  | fw, stopped, failing, .held _ :: rest => modelObs cfg fw stopped failing rest
-  | fw, stopped, failing, .gen i pn :: rest =>
+    transmitting path the advertiser ends; `pfailing`: the next plugin `Apply` fails, with the same
+    consequence (the forwarding read comes first: a pending read failure is hit before it) -/
+def modelObs (cfg : Nat → Dur) : (Nat → Bool) → (Nat → Bool) → (Nat → Bool) → (Nat → Bool) → List HOp → List (Nat × Nat × Int × Int)
+  | _, _, _, _, [] => []
+  | fw, stopped, failing, pfailing, .setFw i b :: rest => modelObs cfg (setAt fw i b) stopped failing pfailing rest
+  | fw, stopped, failing, pfailing, .failNext i :: rest => modelObs cfg fw stopped (setAt failing i true) pfailing rest
+  | fw, stopped, failing, pfailing, .pfailNext i :: rest => modelObs cfg fw stopped failing (setAt pfailing i true) rest
+  | fw, stopped, failing, pfailing, .held _ :: rest => modelObs cfg fw stopped failing pfailing rest
+  | fw, stopped, failing, pfailing, .gen i pn :: rest =>
     let isView := pn == 5 || pn == 6
-    if stopped i && !isView then (i, pn, -2, -2) :: modelObs cfg fw stopped failing rest
-    else if isView && (failing 0 || failing 1) then
-      -- a scrape / an API request reads the forwarding state of every interface in configuration
-      -- order and gives up at the first read that fails (consuming that failure only)
-      let j := if failing 0 then 0 else 1
-      (i, pn, -3, -3) :: modelObs cfg fw stopped (setAt failing j false) rest
+    if stopped i && !isView then (i, pn, -2, -2) :: modelObs cfg fw stopped failing pfailing rest
+    else if isView then
+      match viewFails failing pfailing with
+      | some (ff, pf) => (i, pn, -3, -3) :: modelObs cfg fw stopped ff pf rest
+      | none =>
+        let o := generate cfg (fw i) i (pathOf pn)
+        let (a, b) := render (fw i) false pn o
+        (i, pn, a, b) :: modelObs cfg fw stopped failing pfailing rest
     else if failing i then
-      (i, pn, -3, -3) :: modelObs cfg fw (setAt stopped i true) (setAt failing i false) rest
+      (i, pn, -3, -3) :: modelObs cfg fw (setAt stopped i true) (setAt failing i false) pfailing rest
+    else if pfailing i then
+      (i, pn, -3, -3) :: modelObs cfg fw (setAt stopped i true) failing (setAt pfailing i false) rest
     else
       let o := generate cfg (fw i) i (pathOf pn)
       let (a, b) := render (fw i) false pn o
       let stopped' := if pn == 3 then setAt stopped i true else stopped
-      (i, pn, a, b) :: modelObs cfg fw stopped' failing rest
+      (i, pn, a, b) :: modelObs cfg fw stopped' failing pfailing rest
 
 /-- `pth lt0 lt1 n op* | k (iface path lifetime misconfig)*` -/
 def pth (c impl : List String) : Option Verdict := do
@@ -64,10 +84,8 @@ def pth (c impl : List String) : Option Verdict := do
       let t ← P.tok
       if t == "F" then do let i ← P.nat; let b ← P.bool; pure (HOp.setFw i b)
       else if t == "X" then do let i ← P.nat; pure (HOp.failNext i)
-      -- the next Apply of the interface's wildcard plugin fails once; generated only right before a
-      -- generation on a transmitting path of that interface, where it has the effect of a failing
-      -- forwarding read: nothing is generated and the advertiser ends
-      else if t == "P" then do let i ← P.nat; pure (HOp.failNext i)
+      -- the next Apply of the interface's (harness-defined) plugin fails once
+      else if t == "P" then do let i ← P.nat; pure (HOp.pfailNext i)
       else if t == "O" then do let i ← P.nat; pure (HOp.held i)
       else if t == "G" then do let i ← P.nat; let p ← P.nat; pure (HOp.gen i p)
       else failure)
@@ -75,7 +93,7 @@ def pth (c impl : List String) : Option Verdict := do
   let observed ← P.run (P.list (do
     let i ← P.nat; let p ← P.nat; let lt ← P.int; let m ← P.int; pure (i, p, lt, m))) impl
   let cfg : Nat → Dur := fun i => if i == 0 then lt0 else lt1
-  let want := modelObs cfg (fun _ => true) (fun _ => false) (fun _ => false) ops
+  let want := modelObs cfg (fun _ => true) (fun _ => false) (fun _ => false) (fun _ => false) ops
   let toks := fun (l : List (Nat × Nat × Int × Int)) =>
     s!"{l.length}" ++ String.join (l.map fun (i, p, a, b) => s!" {i} {p} {a} {b}")
   let ok := observed == want
